@@ -515,6 +515,8 @@ class Respondent(httping.Parsent):
                            httping.SEE_OTHER,
                            httping.TEMPORARY_REDIRECT):
             self.redirectant = True
+        else:  # not stale from earlier redirect status that was not followed
+            self.redirectant = False
 
         self.headed = True
         yield True
